@@ -224,22 +224,27 @@ pub fn run<P: Prop>(p: &P, opts: &Opts) -> i32 {
         }
     }
     // confirm every witness twice (determinism of the verdict)
-    let mut reexec = 0u64;
-    for (key, (idx, _, _)) in by_key.iter() {
-        for _ in 0..2 {
-            reexec += 1;
-            let again = match crate::common::guarded(|| p.check(&cases[*idx])) {
-                Ok(r) => r,
-                Err((m, l)) => {
-                    eprintln!("MACHINERY: harness panic on re-execution at {l}: {m}");
-                    return 2;
+    let keys_idx: Vec<(&String, usize)> = by_key.iter().map(|(k, v)| (k, v.0)).collect();
+    let reexec = (keys_idx.len() * 2) as u64;
+    let bad: Vec<String> = keys_idx
+        .par_iter()
+        .filter_map(|(key, idx)| {
+            for _ in 0..2 {
+                match crate::common::guarded(|| p.check(&cases[*idx])) {
+                    Ok(r) => {
+                        if !r.discs.iter().any(|d| &d.key == *key) {
+                            return Some(format!("discrepancy {key} did not reproduce on re-execution (non-determinism in harness or subject)"));
+                        }
+                    }
+                    Err((m, l)) => return Some(format!("harness panic on re-execution at {l}: {m}")),
                 }
-            };
-            if !again.discs.iter().any(|d| &d.key == key) {
-                eprintln!("MACHINERY: discrepancy {key} did not reproduce on re-execution (non-determinism in harness or subject)");
-                return 2;
             }
-        }
+            None
+        })
+        .collect();
+    if let Some(b) = bad.first() {
+        eprintln!("MACHINERY: {b}");
+        return 2;
     }
     let known = load_known(&opts.verif_dir);
     let mut violations = vec![];
